@@ -516,12 +516,45 @@ fn case(_ctx: &ShardCtx, c: &Case, obs: &mut Obs) -> Result<(), String> {
     }
 }
 
+fn resume_case(_ctx: &ShardCtx, c: &super::resume::Case, obs: &mut Obs) -> Result<(), String> {
+    match guarded(|| super::resume::run_case(c)) {
+        Ok(Ok(info)) => {
+            if info.handle_changed {
+                obs.class("resumed-under-a-different-peer-handle");
+            }
+            if info.waited {
+                obs.class("send-waited-for-credit-on-the-resumed-link");
+            }
+            if c.reuse_old {
+                obs.class("old-handle-given-to-another-link");
+            }
+            if info.handle_changed || info.waited {
+                obs.nontrivial(c);
+            }
+            Ok(())
+        }
+        Ok(Err(e)) => {
+            obs.signature = Some(if e.contains("not woken") { "resume-not-woken".into() } else if e.contains("marker") { "resume-routing".into() } else if e.contains("HANG") { "resume-hang".into() } else { "resume".into() });
+            Err(e)
+        }
+        Err(p) => {
+            obs.signature = Some(panic_signature(&p[0]));
+            Err(format!("panic: {}", p.join(" | ")))
+        }
+    }
+}
+
 fn run(ctx: &ShardCtx, rep: &mut Report) {
     MAX_SHRINK_ITERS.store(400, std::sync::atomic::Ordering::Relaxed);
     pt_run(ctx, rep, "identifiers", ctx.budget(60_000, 3_000_000), case_strategy(), |c, o| case(ctx, c, o));
+    pt_run(ctx, rep, "resume", ctx.budget(6_000, 300_000), super::resume::case_strategy(None, Some(true)), |c, o| resume_case(ctx, c, o));
 }
 
-fn replay(_variant: &str, case_json: &Json) -> Result<(), String> {
+fn replay(variant: &str, case_json: &Json) -> Result<(), String> {
+    if variant == "resume" {
+        let c: super::resume::Case = serde_json::from_value(case_json.clone()).map_err(|e| format!("bad case: {e}"))?;
+        return super::resume::run_case(&c).map(|_| ());
+    }
     let c: Case = serde_json::from_value(case_json.clone()).map_err(|e| format!("bad case: {e}"))?;
     run_case(&c).map(|_| ())
 }
